@@ -187,6 +187,13 @@ func Load() (*Loaded, error) {
 			L.Contracts = append(L.Contracts, fc)
 			L.Engine.Contracts[fn] = fc
 		}
+		for key := range pc.Opaque {
+			fn, err := findFunc(prog, sp, "", key)
+			if err != nil {
+				return nil, fmt.Errorf("%s: opaque %s: %v", pp, key, err)
+			}
+			L.Engine.Opaque[fn] = true
+		}
 		for key := range pc.Transparent {
 			recv, name := "", key
 			if i := strings.Index(key, "."); i >= 0 {
